@@ -55,7 +55,7 @@ func genLoadCase(t *rapid.T) loadCase {
 	var c loadCase
 	c.Cfg = gen.AsmCfg(rapid.IntRange(0, 2).Draw(t, "dialect") == 0).Draw(t, "cfg")
 	maxLen := 20
-	if rapid.IntRange(0, 29).Draw(t, "long") == 0 {
+	if gen.Rare(t, "long", 5) {
 		maxLen = 400
 	}
 	if int64(maxLen) > c.Cfg.Length {
